@@ -17,7 +17,8 @@ RULE = (
     "case = (scaffold rows, list of query intervals). Hypothesis draws 1-12 rows (fragments of both "
     "strands, gaps, gaps first/last/consecutive, all-gap scaffolds); scaffolds of length <= 40 get ALL "
     "intervals 1<=a<=b<=len+3, longer ones 200 drawn intervals biased to row boundaries +-1 and beyond "
-    "the end. Sub-check small_scope enumerates every scaffold of <= k rows with row kinds "
+    "the end. Sub-check history interleaves lookups with edits (discard/trim) of the returned results on one indexed "
+    "assembly and requires later lookups and the scaffold's own rows to be unaffected. Sub-check small_scope enumerates every scaffold of <= k rows with row kinds "
     "{fragment,gap} x length {1,2,3} and every interval (complete for that sub-domain). A case is "
     "non-trivial when at least one query hits a gap at an end of the hit range, starts/ends exactly on "
     "a row boundary, or lies (partly) beyond the scaffold end; distinct = distinct SHA-1 of the plain case."
@@ -83,7 +84,7 @@ def body(case, rec):
 
 
 @st.composite
-def scaffold_rows(draw, max_rows=12):
+def scaffold_rows(draw, max_rows=12, strands=(1, -1)):
     n = draw(st.integers(1, max_rows))
     small = draw(st.booleans())
     hi = 6 if small else 400
@@ -95,7 +96,7 @@ def scaffold_rows(draw, max_rows=12):
         else:
             start = draw(st.integers(1, 50))
             ln = draw(st.integers(1, hi))
-            rows.append(["F", f"c{k}", start, start + ln - 1, draw(st.sampled_from([1, -1]))])
+            rows.append(["F", f"c{k}", start, start + ln - 1, draw(st.sampled_from(list(strands)))])
     return rows
 
 
@@ -117,6 +118,61 @@ def cases(draw):
             a, b = b, a
         qs.append([a, b, draw(st.sampled_from([1, -1]))])
     return {"rows": rows, "queries": qs}
+
+
+def body_history(case, rec):
+    """
+    Lookups interleaved with edits of earlier results: the lookup must stay a function of
+    (scaffold, query) - editing a result must not change the indexed scaffold or later lookups.
+    """
+    from vf.props import c18
+
+    rows_plain = case["rows"]
+    rows = conv.mk_rows(rows_plain)
+    original = list(rows)
+    scaffold = Scaffold("s", rows)
+    asm = must(IndexedAssembly, "a", scaffolds=[scaffold], what="IndexedAssembly()")
+    held = scaffold.rows
+    edits = 0
+    whole = False
+    total = ref.rows_len(rows_plain)
+    for a, b, ops in case["steps"]:
+        exp = ref.brute_overlap(rows_plain, a, b)
+        got = must(asm.find_overlaps, Fragment("s", a, b, 1, ("Painted",)), what=f"find_overlaps([{a},{b}])")
+        if (exp is None) != (got is None):
+            raise Violation(f"after {edits} edits of earlier results: query [{a},{b}] expected {exp}, got {got and got.rows}")
+        if got is None:
+            continue
+        i, j, s_, e_ = exp
+        if len(got.rows) != j - i + 1 or any(g is not r for g, r in zip(got.rows, original[i : j + 1])) or (got.start, got.end) != (s_, e_):
+            raise Violation(f"after {edits} edits of earlier results: query [{a},{b}] returned rows {got.rows} span {got.start}..{got.end}, brute force gives rows {i}..{j} span {s_}..{e_}")
+        whole |= a <= 1 and b >= total
+        for op in ops:
+            if c18.apply_op(got, op) is None:
+                break
+            edits += 1
+        if len(held) != len(original) or any(x is not y for x, y in zip(held, original)):
+            raise Violation(f"editing a lookup result changed the rows of the indexed scaffold: {held}")
+    rec.note(case, edits > 0 and whole, {"whole_scaffold_lookup_then_edit"} if whole and edits else ())
+
+
+@st.composite
+def history_cases(draw):
+    from vf.props.c18 import op_strategy
+
+    rows = draw(scaffold_rows(max_rows=6))
+    if not any(r[0] == "F" for r in rows):
+        rows.append(["F", "cx", 1, draw(st.integers(1, 20)), 1])
+    total = ref.rows_len(rows)
+    steps = []
+    for _ in range(draw(st.integers(2, 5))):
+        if draw(st.integers(0, 2)) == 0:
+            a, b = 1, total + draw(st.integers(0, 2))
+        else:
+            a = draw(st.integers(1, total))
+            b = draw(st.integers(a, total + 2))
+        steps.append([a, b, draw(st.lists(op_strategy, max_size=3))])
+    return {"rows": rows, "steps": steps}
 
 
 KINDS = [("F", 1), ("F", 2), ("F", 3), ("G", 1), ("G", 2), ("G", 3)]
@@ -147,6 +203,14 @@ SUBS = [
         body=body,
         budget={"quick": 3200, "thorough": 150000},
         desc="Hypothesis-drawn scaffolds x all / 200 drawn intervals vs brute-force scan",
+    ),
+    Sub(
+        "history",
+        kind="hyp",
+        strategy=history_cases,
+        body=body_history,
+        budget={"quick": 8000, "thorough": 150000},
+        desc="lookups interleaved with edits (discard / trim) of earlier results on one IndexedAssembly: later lookups and the scaffold itself are unaffected",
     ),
     Sub(
         "small_scope",
